@@ -495,6 +495,15 @@ def _ev(e, env):
         return True
     if isinstance(e, ast.IfExp):
         return _ev(e.body, env) if _ev(e.test, env) else _ev(e.orelse, env)
+    if isinstance(e, ast.DictComp) and len(e.generators) == 1:
+        gen = e.generators[0]
+        out = {}
+        for item in list(_ev(gen.iter, env)):
+            env2 = dict(env)
+            _store(gen.target, item, env2)
+            if all(_ev(c, env2) for c in gen.ifs):
+                out[_ev(e.key, env2)] = _ev(e.value, env2)
+        return out
     if isinstance(e, (ast.ListComp, ast.GeneratorExp)) and len(e.generators) == 1:
         gen = e.generators[0]
         out = []
